@@ -521,6 +521,15 @@ def e2e_scenarios(tier: str, seed: int) -> list:
     out.append(mk("S6", ["stuck", "panic"], ["unknown", "sat_model"], early_exit=True, preempt="stuck-confirm"))
     out.append(mk("S6", ["stuck", "failflag"], ["unsat", "sat_model"], early_exit=True, preempt="stuck-confirm"))
     out.append(mk("S6", ["stuck", "panic"], ["unknown", "sat_model"], early_exit=False))
+    # S8: fewer solver threads than potential-violation queries (queries wait in the pool's queue), with --early-exit
+    for n, (outs, reps) in enumerate([(["panic", "failflag"], ["unsat", "sat_model"]), (["panic", "failflag"], ["sat_model", "unsat"]),
+                                      (["panic", "failflag"], ["unsat", "unknown"]), (["panic", "failflag", "panic"], ["unsat", "unsat", "sat_model"]),
+                                      (["panic", "failflag", "success"], ["unsat", "garbage", None]),
+                                      (["panic", "failflag", "success"], ["sat_model", "unsat", None]),
+                                      (["panic", "failflag", "success"], ["unsat", "sat_model", None])]):
+        out.append(mk("S8", outs, reps, early_exit=True, threads=1, delays=[D] + [0.0] * (len(outs) - 1)))
+        out.append(mk("S8", outs, reps, early_exit=True, threads=1, delays=[0.0] * (len(outs) - 1) + [D]))
+        out.append(mk("S8", outs, reps, early_exit=bool(n % 2), threads=1, cache_solver=True))
     # S7: the failed query cannot be saved for debugging (file-system fault in the solver callback)
     for n, r in enumerate(x for x in R if x not in ("sat_model", "unsat")):
         out.append(mk("S7", ["panic", "success"], [r, None], fs_fault=True, early_exit=bool(n % 2)))
@@ -597,6 +606,19 @@ def main_scenarios(tier: str) -> list:
     return out
 
 
+def _ignored_queries(sc, obs, casc, keys, pred) -> bool:
+    """some potential-violation query has no start record of the stub at all, and the observed verdict equals the verdict
+    of the scenario with those paths deleted (and differs from the verdict of the full scenario)"""
+    missing = [j for j, o in enumerate(sc["outcomes"]) if o in CE.QUERYING and o not in ("stuck", "stuckcallee")
+               and CE.marker_hex(0, j) not in set(keys)]
+    if not missing:
+        return False
+    outs = ["revert" if j in missing else o for j, o in enumerate(sc["outcomes"])]
+    reps = [None if j in missing else r for j, r in enumerate(sc["replies"])]
+    pred2 = CC.evaluate(casc, CE.expected_counts(outs, reps, sc.get("refinable", False)))
+    return pred2 != pred and obs.get("exitcode") == pred2
+
+
 def judge_e2e(sc, obs, casc):
     """-> (status, info) with status in ok | counts | mismatch | invalid
     invalid = the run says nothing about halmos (worker crash, stub killed or slowed down by machine load, query not
@@ -618,6 +640,9 @@ def judge_e2e(sc, obs, casc):
         # solver processes are killed on purpose after the first valid counterexample; that one must have come through
         if not any(r.get("kind") == "sat_model" and r.get("done") and r.get("lat", 0) <= 0.6 * obs.get("timeout", 1e9)
                    for r in log):
+            if obs.get("n_results") == 1 and _ignored_queries(sc, obs, casc, keys, pred):
+                info["note"] = "the verdict is the one obtained by ignoring queries that were never handed to the solver"
+                return "mismatch", info
             info["note"] = "no scripted counterexample reply completed in time (machine load)"
             return "invalid", info
     else:
@@ -627,6 +652,11 @@ def judge_e2e(sc, obs, casc):
         want = {CE.marker_hex(0, j) for j, o in enumerate(sc["outcomes"]) if o in CE.QUERYING}
         if set(keys) != want and not sc.get("cache_solver") and obs.get("n_results") == 1 and obs.get("num_paths"):
             info["note"] = f"queries seen {sorted(set(keys))} != expected {sorted(want)}"
+            if _ignored_queries(sc, obs, casc, keys, pred):
+                # a potential-violation query never reached the solver and the verdict simply leaves it out: no load explains
+                # that (a solver killed by the time-out would count as unknown)
+                info["note"] += "; the verdict is the one obtained by ignoring the queries never handed to the solver"
+                return "mismatch", info
             return "invalid", info
     if obs.get("n_results") != 1:
         info["note"] = f"run_contract returned {obs.get('n_results')} results ({obs.get('exception')})"
